@@ -381,9 +381,10 @@ class PredicateEval:
     """Evaluates a pure single-character predicate function of the repository on one representative character by
     interpreting its AST (a tiny expression language; anything else is an AnalysisError). No repository code runs."""
 
-    def __init__(self, funcs: dict[str, ast.FunctionDef], consts: dict[str, object]):
+    def __init__(self, funcs: dict[str, ast.FunctionDef], consts: dict[str, object], lookup: Callable[[str], object] | None = None):
         self.funcs = funcs
         self.consts = consts
+        self.lookup = lookup  # folds a module-level constant by name (raises / returns a sentinel when it cannot)
 
     def call(self, name: str, ch: str, depth: int = 0) -> bool:
         fn = self.funcs.get(name)
@@ -424,7 +425,16 @@ class PredicateEval:
                 return env[e.id]
             if e.id in self.consts:
                 return self.consts[e.id]
+            if self.lookup is not None:
+                v = self.lookup(e.id)
+                if isinstance(v, (str, int, tuple, list, set, frozenset)):
+                    self.consts[e.id] = v
+                    return v
             raise AnalysisError(f"unknown name {e.id} in character predicate")
+        if isinstance(e, (ast.Tuple, ast.List)):
+            return tuple(self._expr(x, env, depth) for x in e.elts)
+        if isinstance(e, ast.Set):
+            return frozenset(self._expr(x, env, depth) for x in e.elts)
         if isinstance(e, ast.BoolOp):
             if isinstance(e.op, ast.And):
                 v = True
